@@ -105,6 +105,13 @@ func (vc *VC) applyIteration(st *State, ci *calleeInfo, call *ssa.CallCommon, in
 	if res.T != "" && sortOf(res.Typ) == "Bool" {
 		vc.oblige(sub, res.T, fmt.Sprintf("iter%d:iteration-continues", ord), "iteration", site, vc.props(), "the callback returns true (the rule covers iterations that visit every entry)", funcKey(cfn))
 	}
+	// the callback must leave the collection alone (the rule iterates over the domain as it was at the call)
+	{
+		qenv := vc.calleeEnv(ci, sub.heap, sub.heap)
+		dom2 := qenv.tr(c.IterDom)
+		val2 := qenv.tr(c.IterVal)
+		vc.oblige(sub, and(eq(dom2.T, dom.T), eq(val2.T, val.T)), fmt.Sprintf("iter%d:collection-unchanged-by-callback", ord), "iteration", site, vc.props(), "the callback does not modify the collection it is iterating", funcKey(cfn))
+	}
 	visited2 := app("store", visited, k0, "true")
 	for _, inv := range invs {
 		g := vc.trClause(invEnv(sub, visited2), inv)
